@@ -555,3 +555,89 @@ Section HandshakeZ.
     split; [rewrite R3, Md; reflexivity|rewrite S8, D8; reflexivity].
   Qed.
 End HandshakeZ.
+
+(* ====================================================================================================== *)
+(* the two reference readings agree on uncompressed traffic: whatever the plain reading (ref_messages, which also demands
+   that every text fragment is a viable UTF-8 prefix) accepts, the reading for compressed connections accepts with the same
+   messages, and it leaves the inflate tape alone *)
+Lemma hdr_z_plain f : f_rsv1 f = false -> hdr_z f = hdr_of f.
+Proof. intros H. unfold hdr_z, hdr_of. rewrite H. reflexivity. Qed.
+
+Lemma ref1_ref1z open tape f ms open1 : plain f -> Forall (fun f => f_rsv1 f = false) open ->
+  ref1 open f = Some (ms, open1) -> ref1z open tape f = Some (ms, open1, tape).
+Proof.
+  intros (P1 & _) Hopen H. unfold ref1 in H. unfold ref1z. rewrite (hdr_z_plain f P1), P1.
+  destruct (negb ((f_op f <? 16) && (blen (f_payload f) <? 9223372036854775808))); [discriminate|].
+  assert (Ev : validate_err true (hdr_of f) (blen (f_payload f)) = validate_err false (hdr_of f) (blen (f_payload f))) by reflexivity.
+  rewrite Ev. destruct (validate_err false (hdr_of f) (blen (f_payload f))); [discriminate|].
+  destruct (f_op f =? OP_PING) eqn:Eping.
+  { apply N.eqb_eq in Eping. rewrite Eping in *. change (is_control OP_PING) with true. cbv iota. inversion H; reflexivity. }
+  destruct (f_op f =? OP_PONG) eqn:Epong.
+  { apply N.eqb_eq in Epong. rewrite Epong in *. change (is_control OP_PONG) with true. change (OP_PONG =? OP_PING) with false.
+    cbv iota. inversion H; reflexivity. }
+  destruct (is_control (f_op f)); [discriminate|].
+  assert (Z : forall fs, fs <> [] -> hd f fs = hd f fs -> f_rsv1 (hd f fs) = false ->
+            (if is_text_msg fs then
+               match uvalidate UAcc (payload_of fs) with
+               | None => None
+               | Some _ => if f_fin f then (if utf8_validb (payload_of fs) then Some ([SText (payload_of fs)], []) else None) else Some ([], fs)
+               end
+             else if f_fin f then Some ([SBinary (payload_of fs)], []) else Some ([], fs)) = Some (ms, open1) ->
+            zcomplete fs tape (f_fin f) = Some (ms, open1, tape)).
+  { intros fs Hne _ Hr Hx. unfold zcomplete, zpayload. destruct fs as [|f0 fr]; [congruence|]. cbn [hd] in Hr. rewrite Hr.
+    destruct (is_text_msg (f0 :: fr)).
+    - destruct (uvalidate UAcc (payload_of (f0 :: fr))); [|discriminate].
+      destruct (f_fin f); [|inversion Hx; reflexivity].
+      destruct (utf8_validb (payload_of (f0 :: fr))); [inversion Hx; reflexivity|discriminate].
+    - destruct (f_fin f); inversion Hx; reflexivity. }
+  destruct open as [|o0 orest].
+  - destruct (f_op f =? OP_CONT); [discriminate|]. apply Z; [discriminate|reflexivity|exact P1|exact H].
+  - destruct (negb (f_op f =? OP_CONT)); [discriminate|]. apply Z; [discriminate|reflexivity| |exact H].
+    inversion Hopen; assumption.
+Qed.
+
+(* the open fragments of the plain reading never carry RSV1 *)
+Lemma ref1_open_plain open f ms open1 : plain f -> Forall (fun f => f_rsv1 f = false) open ->
+  ref1 open f = Some (ms, open1) -> Forall (fun f => f_rsv1 f = false) open1.
+Proof.
+  intros (P1 & _) Hopen H. unfold ref1 in H.
+  destruct (negb _); [discriminate|]. destruct (validate_err false (hdr_of f) (blen (f_payload f))); [discriminate|].
+  destruct (f_op f =? OP_PING); [inversion H; subst; exact Hopen|].
+  destruct (f_op f =? OP_PONG); [inversion H; subst; exact Hopen|].
+  destruct (is_control (f_op f)); [discriminate|].
+  assert (Z : forall fs, Forall (fun f => f_rsv1 f = false) fs ->
+            (if is_text_msg fs then
+               match uvalidate UAcc (payload_of fs) with
+               | None => None
+               | Some _ => if f_fin f then (if utf8_validb (payload_of fs) then Some ([SText (payload_of fs)], []) else None) else Some ([], fs)
+               end
+             else if f_fin f then Some ([SBinary (payload_of fs)], []) else Some ([], fs)) = Some (ms, open1) ->
+            Forall (fun f => f_rsv1 f = false) open1).
+  { intros fs Hfs Hx. destruct (is_text_msg fs).
+    - destruct (uvalidate UAcc (payload_of fs)); [|discriminate]. destruct (f_fin f).
+      + destruct (utf8_validb (payload_of fs)); inversion Hx; constructor.
+      + inversion Hx; subst; exact Hfs.
+    - destruct (f_fin f); inversion Hx; subst; [constructor|exact Hfs]. }
+  destruct open as [|o0 orest].
+  - destruct (f_op f =? OP_CONT); [discriminate|]. apply (Z [f]); [constructor; [exact P1|constructor]|exact H].
+  - destruct (negb (f_op f =? OP_CONT)); [discriminate|]. apply (Z ((o0 :: orest) ++ [f])); [|exact H].
+    apply Forall_app. split; [exact Hopen|constructor; [exact P1|constructor]].
+Qed.
+
+Theorem ref_messages_z_extends_ref_messages fs : forall open tape ms open',
+  Forall plain fs -> Forall (fun f => f_rsv1 f = false) open ->
+  ref_messages open fs = Some (ms, open') -> ref_messages_z open tape fs = Some (ms, open', tape).
+Proof.
+  induction fs as [|f rest IH]; intros open tape ms open' Hpl Hopen H.
+  - cbn in *. inversion H; reflexivity.
+  - inversion Hpl as [|? ? Hpf Hprest]; subst. cbn [ref_messages] in H. cbn [ref_messages_z].
+    destruct (ref1 open f) as [[ms1 open1]|] eqn:E1; [|discriminate].
+    destruct (ref_messages open1 rest) as [[ms2 open2]|] eqn:E2; [|discriminate].
+    inversion H; subst ms open'. clear H.
+    rewrite (ref1_ref1z open tape f ms1 open1 Hpf Hopen E1).
+    rewrite (IH open1 tape ms2 open2 Hprest (ref1_open_plain open f ms1 open1 Hpf Hopen E1) E2). reflexivity.
+Qed.
+
+(* a plain frame is a frame a compressed connection accepts *)
+Lemma plain_zframe f : plain f -> zframe f.
+Proof. intros (_ & B & C & D & E & F). repeat split; assumption. Qed.
